@@ -23,6 +23,37 @@ pub use crate::types::{ActiveChain, SyncShared};
 /// verif hook: the in-flight download table as a stand-alone structure
 #[cfg(feature = "verif-hooks")]
 pub use crate::types::InflightBlocks;
+
+/// verif hooks: the context-free verifiers the relay path runs on peer-supplied compact
+/// blocks, block transactions and uncles (crate-private in production)
+#[cfg(feature = "verif-hooks")]
+pub mod verif {
+    use crate::Status;
+    use ckb_types::{core, packed};
+
+    /// `CompactBlockVerifier::verify`
+    pub fn compact_block_verify(block: &packed::CompactBlock) -> Status {
+        crate::relayer::verif_compact_block_verify(block)
+    }
+
+    /// `BlockTransactionsVerifier::verify`
+    pub fn block_transactions_verify(
+        block: &packed::CompactBlock,
+        indexes: &[u32],
+        transactions: &[core::TransactionView],
+    ) -> Status {
+        crate::relayer::verif_block_transactions_verify(block, indexes, transactions)
+    }
+
+    /// `BlockUnclesVerifier::verify`
+    pub fn block_uncles_verify(
+        block: &packed::CompactBlock,
+        indexes: &[u32],
+        uncles: &[core::UncleBlockView],
+    ) -> Status {
+        crate::relayer::verif_block_uncles_verify(block, indexes, uncles)
+    }
+}
 use ckb_constant::sync::MAX_BLOCKS_IN_TRANSIT_PER_PEER;
 
 // Time recording window size, ibd period scheduler dynamically adjusts frequency
